@@ -200,6 +200,8 @@ def evaluate(case, infos, calls, findings, cr, processed_name, processed_text=""
             V.append(("ctx_leak:%s:%s" % (lang, kindtag), "%s: context refcount ends at %d, expected %d: a context reference is never released" % (what, end["count"], exp["count"])))
         if end.get("dbl", 0):
             V.append(("ctx_double_release:%s:%s" % (lang, kindtag), "%s: %d context handle(s) were released twice (every clone of the context is a distinct handle in the mock; a leak elsewhere does not hide this)" % (what, end["dbl"])))
+        if end.get("late", 0) and kindtag in ("drop", "dtor"):
+            V.append(("instance_released_after_context:%s:%s" % (lang, kindtag), "%s: the instance's drop function ran after the object's last context reference had been released (the context is what keeps the instance's code loaded: instance first, then context)" % what))
         for d in ("d1", "d2"):
             if end[d] < exp[d]:
                 V.append(("instance_not_released:%s:%s" % (lang, kindtag), "%s: instance %s released %d times, expected %d" % (what, d, end[d], exp[d])))
